@@ -31,7 +31,7 @@ func init() {
 			"go/format (go1.23.5) is the reference for token order and comment order",
 			"when gofmt rewrites comment text (doc-comment reformatting) and dst's output matches neither gofmt's nor the input's comments the case is counted inconclusive, not violated",
 		},
-		Required: map[string]int{"transforms": 14},
+		Required: map[string]int{"transforms": 15},
 	})
 }
 
@@ -409,6 +409,41 @@ func runC03(c *fw.Ctx) {
 			}
 		}
 	}
+	// comments at every combination of three indentation levels directly after a statement whose
+	// last line is indented deeper than its first (clause bodies, continuation lines): not gofmt
+	// layouts, but parseable, and every comment must come back in gofmt's order
+	hi := 0
+	for _, shape := range []struct {
+		name, before, after string
+		base                int
+	}{
+		{"case-body", "package p\n\nfunc f(x int) {\n\tswitch x {\n\tcase 1:\n\t\ta()\n", "\tcase 2:\n\t\tb()\n\t}\n}\n", 1},
+		{"comm-body", "package p\n\nfunc f(c chan int) {\n\tselect {\n\tcase <-c:\n\t\ta()\n", "\tdefault:\n\t}\n}\n", 1},
+		{"continuation", "package p\n\nfunc f() {\n\tg(1,\n\t\t2)\n", "\th()\n}\n", 1},
+		{"last-in-block", "package p\n\nfunc f() {\n\tif x {\n\t\tg(1,\n\t\t\t2)\n", "\t}\n}\n", 2},
+	} {
+		for pat := 0; pat < 27; pat++ {
+			i := hi
+			hi++
+			if !c.Mine(i) {
+				continue
+			}
+			var sb strings.Builder
+			sb.WriteString(shape.before)
+			x := pat
+			for k := 0; k < 3; k++ {
+				sb.WriteString(strings.Repeat("\t", shape.base+x%3-0) + fmt.Sprintf("// c%d\n", k+1))
+				x /= 3
+			}
+			sb.WriteString(shape.after)
+			in := []byte(sb.String())
+			if !corpus.Parses(in) {
+				continue
+			}
+			c03Check(c, fmt.Sprintf("indent-pattern:%s/%d", shape.name, pat), "comment-indent-patterns", in, in)
+		}
+	}
+
 	// several files printed in turn by one FileRestorer (it is reset by every RestoreFile): each
 	// output is judged like a single print, provided the file on its own is fine
 	var seqSrcs [][]byte
